@@ -81,6 +81,8 @@ def build():
              "kind_free_text": "recording byte-store seam (io shim / archive entries) with storage-fault injection and a virtual step clock"},
             {"name": "fssim", "path": "simkit/fssim.py", "serves_properties": ["C37"],
              "kind_free_text": "in-memory file system behind os/open/input with fault injection; every mutating call is an event"},
+            {"name": "threadsim", "path": "simkit/threadsim.py", "serves_properties": ["C16"],
+             "kind_free_text": "baton-passing scheduler for threads started by the code under test: seeded pre-emption at line events, cooperative Lock/RLock/Thread/ThreadPoolExecutor"},
             {"name": "histsim", "path": "simkit/driver.py", "serves_properties": ["C16", "C17"],
              "kind_free_text": "seeded API-call history search against a reference model, ddmin minimisation, exact replay"},
         ],
